@@ -399,6 +399,41 @@ def run(ctx):
                              {"norb": norb, "dim": dim})
         except Exception as exc:
             ctx.disagree(f"tuple-raises:{type(exc).__name__}", str(exc), {"norb": norb, "dim": dim})
+    # ---- propagation data of one-body objects of every dense class: the matrix calc_diag_transform() returns is
+    #      unitary and transform() of it is the diagonal matrix of the eigenvalues of the (complex Hermitian) tensor -------
+    for case in range(16 if quick else 160):
+        norb = rng.choice([2, 3])
+        cname = rng.choice(["restricted", "gso", "sso", "general", "tuple"])
+        dim = norb if cname == "restricted" else 2 * norb
+        nr_ = numpy.random.RandomState(ctx.seed * 101 + case)
+        A = nr_.randn(dim, dim) + 1j * nr_.randn(dim, dim)
+        if case % 4 == 0:
+            A = A.real
+        h1 = (A + A.conj().T) / 2
+        if cname == "sso":
+            h1[:norb, norb:] = 0
+            h1[norb:, :norb] = 0
+        dsc = {"class": cname, "norb": norb, "real": bool(case % 4 == 0), "case": case}
+        try:
+            ham = {"restricted": lambda: fqe.get_restricted_hamiltonian((h1,)), "gso": lambda: fqe.get_gso_hamiltonian((h1,)),
+                   "sso": lambda: fqe.get_sso_hamiltonian((h1,)), "general": lambda: fqe.get_general_hamiltonian((h1,)),
+                   "tuple": lambda: build_hamiltonian((h1,), norb=norb)}[cname]()
+            before = numpy.array(ham.tensor(2), copy=True)
+            tr = ham.calc_diag_transform()
+            dg = ham.transform(tr)
+            ctx.case(("diag-transform", case))
+            ctx.count(f"diag-transform:{cname}")
+            ev = numpy.linalg.eigvalsh(h1)
+            if numpy.abs(tr.conj().T @ tr - numpy.eye(dim)).max() > 1e-10:
+                ctx.disagree(f"propagation-data:diag-transform-not-unitary:{cname}", "calc_diag_transform() is not unitary", dsc)
+            elif numpy.abs(dg - numpy.diag(numpy.diag(dg))).max() > 1e-9 or \
+                    numpy.abs(numpy.sort(numpy.real(numpy.diag(dg))) - ev).max() > 1e-9 or numpy.abs(numpy.imag(numpy.diag(dg))).max() > 1e-9:
+                ctx.disagree(f"propagation-data:transform:{cname}",
+                             "transform(calc_diag_transform()) is not the diagonal matrix of the eigenvalues of the one-body tensor", dsc)
+            if not numpy.array_equal(before, ham.tensor(2)):
+                ctx.disagree(f"propagation-data:tensor-changed:{cname}", "calc_diag_transform / transform changed the tensor of the object", dsc)
+        except Exception as exc:
+            ctx.disagree(f"propagation-data-raises:{cname}:{type(exc).__name__}", str(exc)[:160], dsc)
 
 
 def replay(ctx, rep):
